@@ -143,8 +143,11 @@ SilenceUnlessPrescribed ==
         ) => NewCmds = <<>> /\ \A n \in DOMAIN nodes : nodes'[n].hold = nodes[n].hold]_mcvars
 
 \* C06
+\* (an id response that a sleeping requester's hold queue releases at its wake-up was issued earlier, when it was queued:
+\* it is judged then, not again when it leaves the queue)
+Released == UNION {SeqSet(nodes[n].hold) : n \in DOMAIN nodes}
 IdsInRangeAndFresh ==
-  [][\A m \in SeqSet(NewCmds) \cup UNION {SeqSet(nodes'[n].hold) \ SeqSet(nodes[n].hold) : n \in DOMAIN nodes \cap DOMAIN nodes'} :
+  [][\A m \in (SeqSet(NewCmds) \ Released) \cup UNION {SeqSet(nodes'[n].hold) \ SeqSet(nodes[n].hold) : n \in DOMAIN nodes \cap DOMAIN nodes'} :
        (m.cmd = INTERNAL /\ m.sub = I_ID_RESP) =>
           \E k \in 1..MaxId : /\ m.p = ToString(k)
                               /\ k \notin DOMAIN nodes /\ k \notin issued]_mcvars
